@@ -496,3 +496,75 @@ func (g *gen) Case() (Case, string) {
 	}
 	return cs, label
 }
+
+// stored mirrors what Admit leaves in a stored object: every policy has a strategy
+func stored(w ClusterW) ClusterW {
+	b := w
+	b.Policies = append([]PolicyW{}, w.Policies...)
+	for i := range b.Policies {
+		if b.Policies[i].Strategy == "" {
+			b.Policies[i].Strategy = hx("RoundRobin")
+		}
+	}
+	return b
+}
+
+func cloneW(w ClusterW) ClusterW {
+	c := Case{Cluster: w}
+	return clone(c).Cluster
+}
+
+var gateValues = []string{"GlobalRateLimiter=true", "GlobalRateLimiter=false", "DenyAllRequests=true,GlobalRateLimiter=true", "Tracing=true", "",
+	"NoSuchFeature=true", "DenyAllRequests=maybe", "DenyAllRequests", "=true", "GlobalRateLimiter=true,", "Bogus=false"}
+
+// UpdateCase: an UPDATE admission. The old object is a stored (accepted) one; the new object differs from it in any
+// subset of {annotations, labels, spec} - valid and invalid values on either side, incl. an invalid feature-gate
+// annotation on an unchanged spec and an invalid spec under unchanged metadata.
+func (g *gen) UpdateCase(old ClusterW) (Case, string) {
+	old = stored(old)
+	nw := cloneW(old)
+	label := "update:"
+	if g.chance(0.5) {
+		label += "ann"
+		switch g.r.Intn(6) {
+		case 0:
+			nw.Annotations = nil
+		case 1:
+			nw.Annotations = &[][2]string{{hx("note"), hx(g.pick("x", "y"))}}
+		case 2:
+			nw.Annotations = &[][2]string{{hx("a b"), hx("x")}}
+		default:
+			nw.Annotations = &[][2]string{{hx(gateKey), hx(g.pick(gateValues...))}}
+		}
+	}
+	if g.chance(0.3) {
+		label += "+labels"
+		if g.chance(0.7) {
+			nw.Labels = map[string]string{"team": g.pick("a", "b")}
+		} else {
+			nw.Labels = map[string]string{"a b": "x"}
+		}
+	}
+	if g.chance(0.5) {
+		label += "+spec"
+		if g.chance(0.6) {
+			meta := nw
+			for i, n := 0, 1+g.r.Intn(2); i < n; i++ {
+				g.perturb(&nw)
+			}
+			// the perturbation is about the spec: metadata stays as chosen above
+			nw.Name, nw.Namespace, nw.Labels, nw.Annotations = meta.Name, meta.Namespace, meta.Labels, meta.Annotations
+		} else {
+			f := g.validCluster()
+			nw.Servers, nw.Client, nw.Serving, nw.Schemas, nw.LoggingMode, nw.Policies = f.Servers, f.Client, f.Serving, f.Schemas, f.LoggingMode, f.Policies
+		}
+	}
+	if label == "update:" {
+		label = "update:nothing"
+	}
+	cs := Case{Cluster: nw, Prev: &old, Op: "update"}
+	if g.chance(0.4) {
+		cs.Known = g.known()
+	}
+	return cs, label
+}
